@@ -274,6 +274,12 @@ static Wire mesh_obs(ll st,const Mesh& m) {
         ll a[3] = { (ll)ti[0],(ll)ti[1],(ll)ti[2] }; std::sort(a,a+3);
         o.insert(o.end(),a,a+3);
     }
+    std::map<const Vertex*,ll> pos; ll k = 0;
+    for (const auto& v : m.vertices()) { if (!pos.count(v)) pos[v] = k; ++k; }
+    for (const auto& t : m.triangles()) {
+        ll a[3] = { pos.at(&t.vertex(0)),pos.at(&t.vertex(1)),pos.at(&t.vertex(2)) }; std::sort(a,a+3);
+        o.insert(o.end(),a,a+3);
+    }
     return o;
 }
 static Wire mesh_describe(size_t i) {
